@@ -199,6 +199,7 @@ def run(tier: str) -> int:
                   {'parameter': name, 'base': f'cogen-split#{k}:eu{eu}'}, precondition=energy_positive)
     # small plants (one doublet at a low flow rate: a few MW of heat), every O&M figure left to the correlations: the small-plant branches
     # of the correlations are the ones in use, and the O&M adjustment factors are the varied costs
+    rng_all, rng = rng, random.Random(seed() * 18 + 1808)      # (a stream of its own: the older ladder classes keep theirs)
     for k in range(6 if tier == 'quick' else 36):
         eu = (2, 2, 2, gen.COGEN[k % len(gen.COGEN)])[k % 4]
         p = gen.base(rng, 4, eu, 9 if eu == 2 else rng.choice([1, 2]), (k % 3) + 1, lifetime=rng.choice([10, 20, 30]), steps=2)
@@ -212,6 +213,7 @@ def run(tier: str) -> int:
             L.add('C18_npv_cost', 'nonincreasing', lambda r: r['out']['npv'], rungs, {'parameter': name, 'base': f'small#{k}:eu{eu}'})
             L.add('C18_lc_cost', 'nondecreasing', lambda r: [r['out']['lcoe'], r['out']['lcoh'], r['out']['lcoc']], rungs,
                   {'parameter': name, 'base': f'small#{k}:eu{eu}'}, precondition=energy_positive)
+    rng = rng_all
     # multi-segment columns whose temperature cap binds in a deeper segment (the states Resource.tla's lemma quantifies over)
     for k in range(6 if tier == 'quick' else 60):
         p = gen.base(rng, 4, 2, 9, 2, lifetime=5, steps=2)
